@@ -21,10 +21,17 @@ def ofCanonMemo (σ : CanonMemo) : Json :=
   ofList (fun e => Json.arr #[ofIv e.1.1, ofStrand e.1.2, ofBool e.2]) σ
 def ofCounts (c : Nat × Nat) : Json := Json.arr #[ofNat c.1, ofNat c.2]
 
-/-- `{"seq", "start"}`: the region string itself; `{"chrom", "start", "end"}`: through `set_reference_sequence` -/
+def jReadSpan (j : Json) : Except String ReadSpan := do
+  pure { exons := ← jIvList (← arg j "exons"), correctedExons := ← jIvList (← arg j "cexons") }
+
+/-- `{"seq", "start"}`: the region string itself; `{"chrom", "start", "end"}`: through `set_reference_sequence`;
+    with `"kept"` (the kept read assignments of the region): through the loader of the second pass (`loadRegion`) -/
 def jGeneRef (j : Json) : Except String GeneRef := do
   match j.getObjVal? "chrom" with
-  | .ok c => pure (setReferenceSequence (← jSeq c) (← jInt (← arg j "start")) (← jInt (← arg j "end"))).1
+  | .ok c =>
+    match j.getObjVal? "kept" with
+    | .ok rs => pure (loadRegion (← jSeq c) (← jInt (← arg j "start"), ← jInt (← arg j "end")) (← jList jReadSpan rs)).1
+    | .error _ => pure (setReferenceSequence (← jSeq c) (← jInt (← arg j "start")) (← jInt (← arg j "end"))).1
   | .error _ => pure { refRegion := ← jSeq (← arg j "seq"), start := ← jInt (← arg j "start") }
 
 /-- one operation on a `StrandDetector`; returns the observable result and the new dict -/
